@@ -161,6 +161,15 @@ def run(ctx):
         sqla_env.load_relational(inst)
         graph = R.Graph(inst)
         ctx.cls("instances")
+        if inst_name == "canonical" or inst_name.endswith("-0"):
+            # directed cells: collections behind to-one paths as lambda owners (see the generator)
+            k = 0
+            for entity in ("post", "comment", "author", "country"):
+                for t in R.owner_path_lambda_grid(entity):
+                    k += 1
+                    if ctx.mine(k):
+                        ctx.count("owner_path_lambda_cells")
+                        judge(ctx, graph, inst_name, entity, t, "judged")
         for i in range(per_inst):
             if ctx.out_of_time():
                 break
